@@ -122,6 +122,9 @@ def apply(data: bytes, x: dict) -> bytes:
     if kind == "c16":
         from .props import c16
         return c16.apply_fault(data, x)
+    if kind == "core_xml":
+        from .props import c18
+        return c18.apply_core_xform(data, x)
     if kind == "layout_mutate":
         from . import layoutmutate
         return layoutmutate.apply(data, x)
